@@ -222,7 +222,18 @@ let fault_pairs r n post : scenario list =
 let post_c04 = [ start (c 0); pid (); wait 100; destroy () ]
 
 let fam_c04 tier r =
+  (* a start that fails on the child side while another child of the caller is already a zombie:
+     the failed start must reap ITS child, and leave the other one alone *)
+  let beside = List.concat_map (fun bad ->
+      List.map (fun order ->
+          { sc_world = world_with [ b_exit 7; b_exit 0 ];
+            sc_ops = [ new_ ~h:0 (); new_ ~h:1 (); start ~h:1 (c 0); sleep 40 ]
+                     @ (if order then [ start ~h:0 bad; pid ~h:0 () ] else [ start ~h:0 ~opts:{ default_options with o_wd = Some (s "/nonexistent") } (c 1); pid ~h:0 () ])
+                     @ [ wait ~h:1 100; start ~h:0 (c 1); pid ~h:0 (); wait ~h:0 100; destroy ~h:0 (); destroy ~h:1 () ] })
+        [ true; false ])
+      [ argv [ "nonexistent" ]; argv [ "/w" ] ] in
   [ { name = "C04/single-faults"; exhaustive = true; scs = fault_family tier post_c04 };
+    { name = "C04/failed-start-next-to-a-zombie"; exhaustive = true; scs = beside };
     { name = "C04/fault-pairs"; exhaustive = false; scs = fault_pairs r (if tier = "quick" then 300 else 20000) post_c04 } ]
 
 let fam_c05 tier r =
@@ -552,6 +563,18 @@ let fam_c03 tier r =
       sc_ops = [ new_ (); start ~opts (Some (s prog :: List.map s args)); pid (); destroy () ] } in
   [ { name = "C03/random-argv-env-cwd-program"; exhaustive = false; scs = List.init n one } ]
 
+let siblings_family () =
+  let cat = [ a_readall 0; a_readall 0; a_readall 0; a_write 1 3; a_exit 0 ] in
+  List.concat_map (fun second ->
+      List.map (fun order ->
+          let s0 = start ~h:0 (c 0) and s1 = second in
+          { sc_world = world_with [ cat; [ a_sleep 400; a_exit 0 ] ];
+            sc_ops = [ new_ ~h:0 (); new_ ~h:1 () ] @ (if order then [ s0; s1 ] else [ s1; s0 ])
+                     @ [ write ~h:0 5; close ~h:0 0; sleep 50; wait ~h:0 100; read ~h:0 1 10; kill ~h:1 (); wait ~h:1 1000; destroy ~h:0 (); destroy ~h:1 () ] })
+        [ true; false ])
+      [ start ~h:1 (c 1); start ~h:1 ~opts:{ default_options with o_fork = true } ~script:[ a_sleep 400; a_exit 0 ] None;
+        start ~h:1 ~opts:{ default_options with o_err = rd 1; o_nonblocking = true } (c 1) ]
+
 (* ---- C02 / C16 / C17: stream volumes ---- *)
 let sizes = [ 0; 1; 2; 4095; 4096; 4097; 65535; 65536; 65537; 200000; 1048576 ]
 let bufs = [ 0; 1; 7; 4096; 65536; 1048576 ]
@@ -597,6 +620,7 @@ let fam_c02 tier r =
     { name = "C02/interrupted-reads-writes"; exhaustive = true; scs = flt };
     { name = "C02/stdin-writes"; exhaustive = true; scs = win };
     { name = "C02/start-up-input"; exhaustive = true; scs = input };
+    { name = "C02/siblings-see-their-own-eof"; exhaustive = true; scs = siblings_family () };
     { name = "C02/random-histories"; exhaustive = false; scs = List.init n (fun k -> rand_history (split r k)) } ]
 
 let fam_c16 tier r =
@@ -686,7 +710,18 @@ let fam_c17 tier r =
 
 let fam_c14 tier r =
   let n = if tier = "quick" then 1500 else 60000 in
-  [ { name = "C14/random-histories"; exhaustive = false;
+  (* an error that only says "not now" (would-block on a full pipe, an interrupted call) leaves
+     the stream as it is: later calls behave as before *)
+  let transient = List.concat_map (fun nb ->
+      List.map (fun (_, script) ->
+          { sc_world = world_with [ script ];
+            sc_ops = [ new_ (); start ~opts:{ default_options with o_nonblocking = nb; o_err = rd 1 } (c 0);
+                       read 1 10; read 2 10; write 70000; write 70000; write 3; poll ~t:0 [ (0, 1 lor 2 lor 4) ]; write 5; read 1 10;
+                       sleep 80; write 4; poll ~t:0 [ (0, 1) ]; close 0; close 0; write 1; wait 0; destroy () ] })
+        [ ("never-reads", [ a_sleep 300; a_exit 0 ]); ("reads-late", [ a_sleep 60; a_readall 0; a_sleep 300; a_exit 0 ]) ])
+      [ true ] in
+  [ { name = "C14/transient-errors-keep-streams"; exhaustive = true; scs = transient };
+    { name = "C14/random-histories"; exhaustive = false;
       scs = List.init n (fun k -> rand_history ~allow_fork:true ~end_destroy:(k mod 4 <> 0) (split r k)) } ]
 
 let fam_c20 tier r =
